@@ -45,6 +45,54 @@ def samples(r):
     out.append(("application/json", b'{"a": "", "b": [" ", "", "http://"], "c": {"": ""}, "d": "[]", "e": "{}"}'))
     out.append(("application/xml", b'<?xml version="1.0"?><urlset><url><loc></loc></url><url><loc> </loc></url><a href=""/><b src=""></b></urlset>'))
     out.append(("text/plain", b"see http://a.example/x and https://b.example/y.png, also www.c.example\n" * 5))
+    out += binary_samples()
+    return out
+
+
+def binary_samples():
+    """small bodies that the MIME sniffer recognises as types deep in its hierarchy and outside the text family"""
+    import io, zipfile, struct
+    out = []
+    def ftyp(brand, compat=b""):
+        box = b"ftyp" + brand + b"\x00\x00\x00\x00" + brand + compat
+        return struct.pack(">I", len(box) + 4) + box + b"\x00\x00\x00\x08free" + b"\x00" * 64
+    for brand, ct in [(b"avif", "image/avif"), (b"heic", "image/heic"), (b"M4A ", "audio/mp4"), (b"3gp4", "video/3gpp"), (b"isom", "video/mp4"),
+                      (b"qt  ", "video/quicktime"), (b"mif1", "image/heif"), (b"M4V ", "video/x-m4v")]:
+        out.append((ct, ftyp(brand, b"mif1miaf")))
+    ogg = b"OggS\x00\x02" + b"\x00" * 8 + b"\x01\x02\x03\x04" + b"\x00" * 8 + b"\x01\x1e"
+    out.append(("audio/ogg", ogg + b"\x01vorbis" + b"\x00" * 40))
+    out.append(("video/ogg", ogg + b"\x80theora" + b"\x00" * 40))
+    out.append(("audio/ogg", ogg + b"OpusHead" + b"\x00" * 40))
+    def z(files):
+        b = io.BytesIO()
+        with zipfile.ZipFile(b, "w", zipfile.ZIP_STORED) as f:
+            for name, data in files:
+                f.writestr(name, data)
+        return b.getvalue()
+    out.append(("application/vnd.openxmlformats-officedocument.wordprocessingml.document",
+                z([("[Content_Types].xml", "<Types/>"), ("_rels/.rels", "<r/>"), ("word/document.xml", "<w:document>http://a.example/x</w:document>")])))
+    out.append(("application/vnd.openxmlformats-officedocument.spreadsheetml.sheet", z([("[Content_Types].xml", "<Types/>"), ("xl/workbook.xml", "<x/>")])))
+    out.append(("application/epub+zip", z([("mimetype", "application/epub+zip"), ("META-INF/container.xml", "<c/>")])))
+    out.append(("application/java-archive", z([("META-INF/MANIFEST.MF", "Manifest-Version: 1.0\n"), ("A.class", "\xca\xfe")])))
+    out.append(("application/zip", z([("a.txt", "http://a.example/in-zip")])))
+    ole = b"\xd0\xcf\x11\xe0\xa1\xb1\x1a\xe1" + b"\x00" * 16 + b"\x3e\x00\x03\x00\xfe\xff\x09\x00" + b"\x00" * 480
+    out.append(("application/msword", ole + b"\x00" * 80 + bytes.fromhex("0609020000000000c000000000000046") + b"\x00" * 400))
+    out.append(("application/vnd.ms-excel", ole + b"\x00" * 80 + bytes.fromhex("1008020000000000c000000000000046") + b"\x00" * 400))
+    out.append(("image/png", b"\x89PNG\r\n\x1a\n\x00\x00\x00\rIHDR" + b"\x00" * 40))
+    out.append(("image/gif", b"GIF89a\x01\x00\x01\x00\x00\x00\x00;"))
+    out.append(("image/jpeg", b"\xff\xd8\xff\xe0\x00\x10JFIF\x00" + b"\x00" * 40 + b"\xff\xd9"))
+    out.append(("image/webp", b"RIFF\x24\x00\x00\x00WEBPVP8 " + b"\x00" * 40))
+    out.append(("audio/wav", b"RIFF\x24\x00\x00\x00WAVEfmt " + b"\x00" * 40))
+    out.append(("video/x-msvideo", b"RIFF\x24\x00\x00\x00AVI LIST" + b"\x00" * 40))
+    out.append(("application/wasm", b"\x00asm\x01\x00\x00\x00"))
+    out.append(("application/gzip", bytes.fromhex("1f8b0800000000000003") + b"\x00" * 20))
+    out.append(("application/x-7z-compressed", b"7z\xbc\xaf\x27\x1c" + b"\x00" * 40))
+    out.append(("audio/mpeg", b"ID3\x03\x00\x00\x00\x00\x00\x21" + b"\x00" * 60))
+    out.append(("audio/flac", b"fLaC\x00\x00\x00\x22" + b"\x00" * 60))
+    out.append(("video/webm", bytes.fromhex("1a45dfa3") + b"\x01\x00\x00\x00\x00\x00\x00\x1f\x42\x82\x84webm" + b"\x00" * 40))
+    out.append(("video/x-matroska", bytes.fromhex("1a45dfa3") + b"\x01\x00\x00\x00\x00\x00\x00\x1f\x42\x82\x88matroska" + b"\x00" * 40))
+    out.append(("application/x-sqlite3", b"SQLite format 3\x00" + b"\x00" * 80))
+    out.append(("font/woff2", b"wOF2\x00\x01\x00\x00" + b"\x00" * 40))
     return out
 
 
@@ -138,15 +186,28 @@ def run(ctx):
                 h = core.Interactive("extract")
                 h.send({"op": "cfg", "maxHops": 3})
         parents = {}
+        nhang0 = 0
         for i, (ct, body) in enumerate(base):
             hdrs = {"Server": "AmazonS3"} if ct == "s3" else {}
             op = {"op": "doc", "url": "http://site.example/d/%d" % i, "ctype": "application/xml" if ct == "s3" else ct, "headers": hdrs, "bodyhex": body.hex()}
-            out = h.send(op)
+            out = h.send(dict(op, timeoutMs=WATCHDOG_MS))
             judge(ctx, h, op, out, "valid sample of %s" % ct)
+            if out.startswith("hang"):
+                h.close()
+                h = core.Interactive("extract")
+                h.send({"op": "cfg", "maxHops": 3})
+                nhang0 += 1
+                if nhang0 >= 3:
+                    break
             parents[i] = len(json.loads(out).get("assets", [])) + len(json.loads(out).get("outlinks", [])) if out.startswith("{") else 0
+        nbin = len(binary_samples())
+        nhang = 0
         for k in range(n):
-            i = r.randrange(len(base))
+            # mostly the textual formats the extractors parse; the binary containers exercise MIME sniffing and the dispatch
+            i = r.randrange(len(base) - nbin) if r.random() < 0.85 else r.randrange(len(base) - nbin, len(base))
             ct, body = base[i]
+            if i not in parents:
+                continue
             m = mutate(r, body)
             served = ct if r.random() < 0.8 else r.choice(TYPES)          # type confusion
             hdrs = {"Server": "AmazonS3"} if ct == "s3" or r.random() < 0.05 else {}
@@ -161,6 +222,9 @@ def run(ctx):
                 h.close()
                 h = core.Interactive("extract")
                 h.send({"op": "cfg", "maxHops": 3})
+                nhang += 1
+                if nhang >= 4 and not out.startswith("hang in github.com/pdfcpu/"):
+                    break          # every hang costs the watchdog's 10 s: the violation is reported, stop here
                 continue
             fewer = False
             if ok and out.startswith("{"):
@@ -193,6 +257,26 @@ def run(ctx):
                     break
             ctx.case("loc" + loc + str(k), True)
             ctx.count("location-headers")
+        # outlinks of odd shapes (from anchors and from the Link header) with --domains-crawl active: every outlink is matched against the
+        # configured domains before it is resolved
+        links = ['</rel/next>; rel="next"', "<?page=2>; rel=next", "<#top>; rel=x", "<//dc.example/p>; rel=next", "<>; rel=next", "<http://DC.EXAMPLE./x>; rel=next",
+                 "<http://dc.example.:80/>; rel=a", "<mailto:a@dc.example>; rel=a", "<http:///nohost>; rel=next", "< >; rel=next", "<.>; rel=next", "<http://>; rel=next"]
+        hrefs = ["/x", "?q=1", "#", "//", "http:///p", "mailto:x@dc.example", "javascript:void(0)", ".", "", " ", "http://DC.example./y", "http://sub.dc.example", "//dc.example"]
+        for k in range(200 if ctx.thorough() else 40):
+            body = "<html><body>" + "".join('<a href="%s">l</a>' % r.choice(hrefs) for _ in range(r.randrange(0, 5))) + "</body></html>"
+            lines = [{"op": "cfg", "excludeHosts": [], "maxHops": r.choice([0, 1, 2]), "maxRedirect": 5,
+                      "domainsCrawl": r.choice([["dc.example"], ["dc.example", "http://sub.dc.example/only/this"], ["^https?://dc\\.example/.*$"]])},
+                     {"op": "seed", "id": "s", "url": "http://site.example/l%d" % k}, {"op": "pre"},
+                     {"op": "arch", "outcomes": {"s": {"status": 200, "ctype": "text/html", "location": "", "body": body, "link": ", ".join(r.sample(links, r.randrange(1, 4)))}}},
+                     {"op": "post"}]
+            for op in lines:
+                out = hs.send(op)
+                if out.startswith("crash") or (out.startswith("panic") and "non-fresh" not in out) or out.startswith("harness-error"):
+                    ctx.violation("page with Link header %r and anchors, --domains-crawl %s: %s" % (lines[3]["outcomes"]["s"]["link"][:80], lines[0]["domainsCrawl"], out[:200]),
+                                  {"domain": "stage-ops", "ops": lines})
+                    break
+            ctx.case("dc" + json.dumps(lines[3]) + str(k), True)
+            ctx.count("domains-crawl-pages")
     finally:
         hs.send({"op": "close"}); hs.close()
     # queries made of malformed pairs only, of empty pairs, of separators only (each pair may be dropped by the canonicaliser)
